@@ -711,7 +711,7 @@ Lemma release_steps_wle w o P : WInv w → P ≠ [] →
   wle (pool_key P) w (pstep w o).1.
 Proof.
   intros HW HP Ho.
-  destruct o as [e|key nodes orc fl|ns name uid node orc fl|n orc oun fl|ip orc ocl fl|k ip ocl fl|key fl|io|conf]; try done.
+  destruct o as [e|key nodes orc fl|ns name uid node orc fl|n orc oun fl|ip orc ocl fl|k ip ocl fl|sp fl|io|conf]; try done.
   - by apply event_step_wle.
   - cbn [pstep]. pose proof (resync_section_wle P w ip orc ocl fl HP) as H.
     destruct (resync_section w ip orc ocl fl) as [w' [| |]]; done.
@@ -1048,7 +1048,7 @@ Proof.
     cut (ns_ok (w_ipam (pstep w o).1) ∧
          (N.of_nat (cnt (w_ipam (pstep w o).1) (pool_key P)) <= N.max (N.of_nat (cnt (w_ipam w) (pool_key P))) (size_in_force w (P1 o) P))%N).
     { intros [? ?]. done. }
-    destruct o as [e|key nodes orc fl|ns name uid node orc fl|n orc oun fl|ip orc ocl fl|k ip ocl fl|key fl|io|conf].
+    destruct o as [e|key nodes orc fl|ns name uid node orc fl|n orc oun fl|ip orc ocl fl|k ip ocl fl|sp fl|io|conf].
     + apply Hsame. cbn [pstep fst]. by apply env_step_ipam.
     + cbn [pstep size_in_force]. destruct (w_pods w !! key) as [p|] eqn:Ep; [|cbn [fst]; split; [done|lia]].
       destruct (wi_pods w HW key p Ep) as [_ W].
@@ -1072,9 +1072,9 @@ Proof.
     + apply Hwle. by apply release_steps_wle.
     + apply Hwle. by apply release_steps_wle.
     + apply Hwle. by apply release_steps_wle.
-    + cbn [pstep size_in_force fst]. destruct Hwf as [Wkey Hwf]. rewrite sync_given_obj.
-      destruct (synced_obj w key) as [l|] eqn:El; [|by apply Hsame].
-      pose proof (synced_obj_wf w key l HW Wkey El) as W. unfold sync_pod_ip. destruct (pd_phase l =? 1); [|by apply Hsame].
+    + cbn [pstep size_in_force fst]. destruct Hwf as [Wsp Hwf]. rewrite sync_given_obj.
+      destruct (synced_obj w sp) as [l|] eqn:El; [|by apply Hsame].
+      pose proof (synced_obj_wf w sp l HW Wsp El) as W. unfold sync_pod_ip. destruct (pd_phase l =? 1); [|by apply Hsame].
       destruct (decide (pd_pool l = [])) as [Epl|Epl].
       * destruct (sync_ips_other l fl (pool_key P) (pod_key_nopool l P W Epl HP) (pd_ips l) 0%nat w (wi_ipam w HW)) as (_ & Hc & Hp).
         split; [unfold ns_ok; by rewrite Hp|]. rewrite Hc. lia.
@@ -1147,7 +1147,7 @@ Proof.
   intros [HW Hns] Hwf. destruct o as [o|name size pre picks nfail].
   - split; [by apply winv_step|]. cbn [pstep2 fst]. destruct (wi_ipam w HW) as [HIi HIr].
     assert (∀ w', i_pools (w_ipam w') = i_pools (w_ipam w) → ns_ok (w_ipam w')) as Hp by (intros w' E; unfold ns_ok; by rewrite E).
-    destruct o as [e|key nodes orc fl|ns name uid node orc fl|n orc oun fl|ip orc ocl fl|k ip ocl fl|key fl|io|conf].
+    destruct o as [e|key nodes orc fl|ns name uid node orc fl|n orc oun fl|ip orc ocl fl|k ip ocl fl|sp fl|io|conf].
     + apply Hp. cbn [pstep fst]. by rewrite env_step_ipam.
     + cbn [pstep]. destruct (w_pods w !! key) as [p|] eqn:Ep; [|done].
       destruct (filter_section w p nodes orc fl) as [w' r] eqn:Ef.
@@ -1161,7 +1161,7 @@ Proof.
     + apply Hp. by apply (release_steps_wle w _ (L "p")).
     + apply Hp. by apply (release_steps_wle w _ (L "p")).
     + apply Hp. by apply (release_steps_wle w _ (L "p")).
-    + cbn [pstep fst]. rewrite sync_given_obj. destruct (synced_obj w key) as [l|]; [|done]. apply Hp.
+    + cbn [pstep fst]. rewrite sync_given_obj. destruct (synced_obj w sp) as [l|]; [|done]. apply Hp.
       unfold sync_pod_ip. destruct (pd_phase l =? 1); [|done]. apply sync_ips_pools.
     + destruct io as [conf lf df| | | | | | | | | | | |]; cbn [wf_op2 wf_op] in Hwf; try done. destruct Hwf as [-> _].
       cbn [pstep fst set_ipam w_ipam].
